@@ -53,6 +53,47 @@ theorem sort_perm_invariant {xs ys : List Ixn} (h : KeysNodup xs) (hp : xs.Perm 
   isort_perm_invariant less_strictWeak hp
     (fun a ha b hb h1 h2 => h.keyInj a ha b hb (less_tri h1 h2).2)
 
+/-- `Sources[i].Precedence` is an exported field a client may send (fresh structs carry 0, a
+    read-modify-write carries what the store returned, anything else is garbage): `normalize` ignores it.
+    Whatever values come in, the stored entry — hence the stored precedence — is a function of the names. -/
+theorem stored_precedence_ignores_input (legacy : Bool) (dst : Name) (srcs : List Src) (f : Src → Nat) :
+    normalize legacy ⟨dst, srcs.map fun s => { s with prec := f s }⟩ = normalize legacy ⟨dst, srcs⟩ ∧
+    ∀ s ∈ (normalize legacy ⟨dst, srcs⟩).sources, s.prec = precOf s.name dst := by
+  constructor
+  · simp only [normalize, List.map_map]
+    congr 2
+  · intro s hs
+    simp only [normalize, mem_isort, List.mem_map] at hs
+    obtain ⟨s0, _, rfl⟩ := hs
+    simp [normSrc]
+
+/-- … so every write operation gives the same store and the same answer for any input precedences. -/
+theorem writes_ignore_input_precedence (st : Store) (dst : Name) (srcs : List Src) (v : Src) (f : Src → Nat) :
+    applyOpE st (.ent ⟨dst, srcs.map fun s => { s with prec := f s }⟩) = applyOpE st (.ent ⟨dst, srcs⟩) ∧
+    applyOpE st (.up dst { v with prec := f v }) = applyOpE st (.up dst v) := by
+  constructor
+  · simp only [applyOpE, applyEntry, (stored_precedence_ignores_input false dst srcs f).1]
+  · simp only [applyOpE, mutUpsert]
+    split
+    · rfl
+    · cases hg : getEntry st.entries dst with
+      | none =>
+        have := (stored_precedence_ignores_input false dst [v] (fun _ => f v)).1
+        simp only [List.map_cons, List.map_nil] at this
+        simp only [this]
+      | some prev =>
+        have hu : ∀ l : List Src, (upsertSource v.name { v with prec := f v } l).map (normSrc false prev.name) =
+            (upsertSource v.name v l).map (normSrc false prev.name) := by
+          intro l
+          induction l with
+          | nil => simp [upsertSource, normSrc]
+          | cons x xs ih =>
+            simp only [upsertSource]
+            split
+            · simp [normSrc]
+            · simp only [List.map_cons, ih]
+        simp only [normalize, hu]
+
 /-! ## the store invariant holds for every history -/
 
 /-- Every history of writes (config entries applied or deleted, upsert / delete / legacy-create
